@@ -593,6 +593,11 @@ def mutable_defaults(fnode) -> list:
                                              'list', 'dict', 'sorted', 'len',
                                              'bool', 'isinstance'):
                 kept = True               # escapes into another object
+            if isinstance(x, ast.Return) and x.value is not None and any(
+                    isinstance(k, ast.Name) and k.id == p_.arg
+                    for k in ([x.value] + (list(x.value.elts) if isinstance(
+                        x.value, (ast.Tuple, ast.List)) else []))):
+                kept = True               # handed back to the caller as is
         if kept:
             out.append((p_, d))
     return out
